@@ -134,7 +134,16 @@ func c15Run(r *core.Run) {
 	}
 	instant := now.UTC().Truncate(time.Second).Format("2006-01-02T15:04:05") + "Z"
 	exp := &expEl{ns: P, tag: kind, attrs: map[string]string{"Version": "2.0", "IssueInstant": instant}}
-	exp.kids = append(exp.kids, &expEl{ns: A, tag: "Issuer", text: str(issuer)})
+	issuerOptional := false
+	if issuer == "" {
+		// nothing configured at all: an empty Issuer and no Issuer both say "no issuer"; either way the
+		// remaining children stay in schema order (a signature is the first child then)
+		first := d.Root().ChildElements()
+		issuerOptional = len(first) == 0 || !(first[0].Tag == "Issuer" && first[0].NamespaceURI() == A)
+	}
+	if !issuerOptional {
+		exp.kids = append(exp.kids, &expEl{ns: A, tag: "Issuer", text: str(issuer)})
+	}
 	if signed {
 		exp.kids = append(exp.kids, &expEl{ns: world.NSDsig, tag: "Signature", anySig: true})
 	}
